@@ -513,7 +513,8 @@ def factorize_2d(
 
     if sort:
         argsort = multi_index.argsort()
-        combined_codes = np.argsort(argsort)[combined_codes]
+        # the appended -1 keeps null keys (code -1) null
+        combined_codes = np.append(np.argsort(argsort), -1)[combined_codes]
         multi_index = multi_index[argsort]
 
     return combined_codes, multi_index
